@@ -37,7 +37,9 @@ def generate(seed, tier):
     if source == "cpsat" and n_ops(spec) > 9:
         source = "dispatcher"
     names, style = gen_filter(rng, None, p_none=0.5)
-    return {"prop": PROP, "cfg": {"instance": spec, "source": source, "filter": names, "filter_style": style,
+    abandoned = [["dispatch", rng.randrange(64), rng.randrange(64), int(rng.random() < 0.5)] for _ in range(rng.randint(1, 4))] if rng.random() < 0.3 else []
+    return {"prop": PROP, "cfg": {"instance": spec, "source": source, "filter": names, "filter_style": style, "abandoned": abandoned,
+                                  "second": rng.choice([None, None, "rule", "dispatcher"]),
                                   "rule": rng.choice(["shortest_processing_time", "most_work_remaining", "first_come_first_served", "random"]),
                                   "solver_seed": rng.randrange(1 << 30)},
             "ops": [["dispatch", rng.randrange(64), rng.randrange(64), int(rng.random() < 0.5)] for _ in range(n_ops(spec))]}
@@ -118,6 +120,20 @@ def execute(case, ctx):
         if source in ("dispatcher", "sequences"):
             d = Dispatcher(inst, ready_operations_filter=make_filter(cfg["filter"], cfg["filter_style"]) if source == "dispatcher" else None)
             m = Model(jobs, cfg["filter"] if source == "dispatcher" else ())
+            if cfg.get("abandoned"):
+                # an episode abandoned mid-way: a few dispatches, the usual queries, then reset() - the schedule
+                # built afterwards by the same dispatcher must be as good as one built by a fresh dispatcher
+                for op in cfg["abandoned"]:
+                    if d.schedule.is_complete():
+                        break
+                    cands = d.available_operations() if op[3] else d.raw_ready_operations()
+                    o = cands[op[1] % len(cands)]
+                    d.dispatch(o, o.machines[op[2] % len(o.machines)])
+                d.current_time()
+                d.available_operations()
+                d.reset()
+                ctx.fault("restart")
+                ctx.probe("schedule_built_after_abandoned_episode")
             for op in case["ops"]:
                 if d.schedule.is_complete():
                     break
@@ -190,6 +206,42 @@ def execute(case, ctx):
         ctx.probe("cpsat_schedule_with_slack")
     ctx.event(1, source, mk, longest)
     ctx.sim_time = mk
+    # a second solved graph for the SAME instance object, from a different schedule: both graphs must stay right
+    if cfg.get("second"):
+        from job_shop_lib.dispatching.rules import DispatchingRuleSolver
+
+        ctx.step = 2
+        try:
+            if cfg["second"] == "rule":
+                sched2 = DispatchingRuleSolver(dispatching_rule="random", machine_chooser="random").solve(inst)
+            else:
+                d2 = Dispatcher(inst)
+                for op in reversed(case["ops"]):
+                    if d2.schedule.is_complete():
+                        break
+                    cands = d2.raw_ready_operations()
+                    o = cands[(op[1] * 7 + 3) % len(cands)]
+                    d2.dispatch(o, o.machines[(op[2] + 1) % len(o.machines)])
+                sched2 = d2.schedule
+                if not sched2.is_complete():
+                    return
+        except Exception as e:  # noqa: BLE001
+            raise Foreign("C04", short_exc(e))
+        sg2 = build_solved_disjunctive_graph(sched2)
+        orders2 = [[(so.operation.job_id, so.operation.position_in_job) for so in ml] for ml in sched2.schedule]
+        for label, gg, oo in (("second", sg2, orders2), ("first (re-read after the second was built)", sg, orders)):
+            w2 = set()
+            for j, job in enumerate(jobs):
+                for p in range(1, len(job)):
+                    w2.add((opid[(j, p - 1)], opid[(j, p)]))
+                w2.add((n, opid[(j, 0)]))
+                w2.add((opid[(j, len(job) - 1)], n + 1))
+            for ml in oo:
+                for a, b in zip(ml, ml[1:]):
+                    w2.add((opid[a], opid[b]))
+            g2 = {(int(u), int(v)) for u, v in gg.graph.edges()}
+            ctx.check(g2 == w2, "solved_graph_edges", lambda: f"{label} solved graph of the same instance object: missing {sorted(w2 - g2)[:5]}, extra {sorted(g2 - w2)[:5]}", builder="solved_second")
+        ctx.probe("two_solved_graphs_same_instance")
 
 
 def nontrivial(case, ctx):
